@@ -137,7 +137,7 @@ def stretches_of_F(vk, Fq):
     return out
 
 
-CONFIGS = [dict(part="integration", pair="hyperelastic~lagrange"), dict(part="integration", pair="jax~tensortrax"), dict(part="uniaxial"), dict(part="documented")]
+CONFIGS = [dict(part="integration", pair="hyperelastic~lagrange"), dict(part="integration", pair="jax~tensortrax"), dict(part="uniaxial"), dict(part="uniaxial-points"), dict(part="documented")]
 
 
 @contract("C12", "morph_rd", configs=CONFIGS)
@@ -154,6 +154,8 @@ def morph_rd(vk, cfg):
             integration(vk, cfg["pair"])
     elif cfg["part"] == "uniaxial":
         uniaxial(vk)
+    elif cfg["part"] == "uniaxial-points":
+        uniaxial_points(vk)
     else:
         documented(vk)
 
@@ -281,6 +283,37 @@ def run_closure(vk, f, lam, sv, kw, backend):
     with M.rebound(mu, extra=JBRANCH if backend == "jax" else K.BRANCH):
         g, s = f(lam, sv, **kw)
     return np.asarray(g, dtype=object), np.asarray(s, dtype=object)
+
+
+def uniaxial_points(vk):
+    """the two real morph_uniaxial at 21 concrete rational states (one per direction, all 8 sign patterns of the three
+    branch quantities, parameters of the docstring example): every abs / maximum branch is decided by the VALUES the code
+    computes, not by declared sign patterns -- so a change of a quantity the code branches on is refuted here (in
+    `uniaxial` it makes the declared patterns inapplicable: undecided)"""
+    if not vk.sym:
+        return
+    from fractions import Fraction as _Fr
+
+    M.mark_real(vk, TL.morph_uniaxial, alias="felupe.constitution.tensortrax.models.lagrange.morph_uniaxial")
+    M.mark_real(vk, JL.morph_uniaxial, alias="felupe.constitution.jax.models.lagrange.morph_uniaxial")
+    near = np.array([K.pattern_near(a) for a in range(ND)])
+    exact = lambda arr: np.array([LP.const(_Fr(float(x)).limit_denominator(1000)) for x in np.asarray(arr, dtype=float).ravel()], dtype=object)  # noqa: E731
+    lam = exact(near[:, 0])
+    sv = exact(np.concatenate([near[:, 1], near[:, 2], np.full(ND, 0.1), np.full(ND, 0.2)]))
+    p = list(exact(K.P_DOC))
+    eps = LP.const(_Fr(1, 100))
+    with M.rebound(TL.morph_uniaxial, extra=K.BRANCH):
+        mt_, st_ = TL.morph_uniaxial(lam, sv, p=p, ε=eps)
+    with M.rebound(JL.morph_uniaxial, extra=JBRANCH):
+        mj_, sj_ = JL.morph_uniaxial(lam, sv, p=p, ε=eps)
+    vk.ensures_eq("at 21 rational states (all 8 sign patterns): morph_uniaxial_jax==morph_uniaxial_tensortrax", np.asarray(mj_, dtype=object), np.asarray(mt_, dtype=object))
+    vk.ensures_eq("at 21 rational states (all 8 sign patterns): state of morph_uniaxial_jax==morph_uniaxial_tensortrax", np.asarray(sj_, dtype=object), np.asarray(st_, dtype=object))
+    # the spec of `documented` at the same states: state update (C_T^S, λ - 1, ...) -- first two blocks in closed form
+    ct = np.array([co(l) * co(l) - 1 / co(l) for l in lam], dtype=object)
+    cts = np.array([max(abs(co(c).asconst()), co(z).asconst()) for c, z in zip(ct, sv[:ND])], dtype=object)
+    vk.ensures_eq("at 21 rational states: stored maximum == max(|λ² - 1/λ|, stored maximum)", np.asarray(st_, dtype=object)[:ND], np.array([LP.const(x) for x in cts], dtype=object))
+    vk.ensures_eq("at 21 rational states: stored stretch == λ - 1", np.asarray(st_, dtype=object)[ND : 2 * ND], np.array([co(l) - 1 for l in lam], dtype=object))
+    vk.canary("jax == 2 * tensortrax", np.asarray(mj_, dtype=object), 2 * np.asarray(mt_, dtype=object))
 
 
 def uniaxial(vk):
